@@ -17,7 +17,8 @@ Line protocol for C16 (strings are hex byte strings, `-` = empty):
            harness (ignored by the model, used by `judge`)
   judge <go answer> :: <case>             → `holds` | `violates: why`; for `eval` the answer violates the property
            when it differs from `<want>`; for `remap` when the real Remap is not the position→index map of the
-           real RHS; for `rewrite` a difference is not by itself a violation.
+           real RHS; for `rewrite` an accepted action with a reference that denotes no symbol of the rule (number
+           outside `[0, MaxPos-1)`, unknown name); other differences of the text are not by themselves violations.
 -/
 namespace TmVerif.DriverC16
 open TmVerif.Proto TmVerif.ActionRefs
@@ -185,6 +186,14 @@ def handle (args : List String) : Option String :=
       let remap ← parseRemap remap
       if remapOk rhs remap then some "holds"
       else some "violates: Remap of the compiled rule is not the position→index map of its right-hand side"
+    | ["ok", _, "::", "rewrite", names, maxPos, remap, src, types, lhs, act] => do
+      -- the implementation accepts the action: every reference in it must denote a symbol of the rule
+      let v ← parseVars names maxPos remap src types lhs
+      let act ← hexStr act
+      match action v act with
+      | .error .range => some "violates: the action is accepted although it contains a numbered reference outside the positions of the rule"
+      | .error .name => some "violates: the action is accepted although it contains a name that is no alias of the rule"
+      | _ => some "holds"
     | _ => some "holds"
   | _ => none
 
